@@ -16,7 +16,7 @@ ASSUMPTIONS = [
 ]
 OUTSIDE = ["what libhdf5/numpy do with particular byte strings (trailing NULs, padding, gzip): the 'bit-for-bit on disk' part that lives in C; counterexamples are nevertheless replayed on real h5py with non-ASCII and unequal-length names"]
 RULE = "name/dose coincidence structure and the mask are solver-chosen; values stay symbolic."
-BUDGET_S = {"quick": 240, "thorough": 1500}
+BUDGET_S = {"quick": 600, "thorough": 3000}
 TASK_QUOTA = 60
 
 
